@@ -5,10 +5,13 @@
 //! (this binary re-executed with `--worker`).  The worker writes the call it is about to make (and a
 //! one-byte tag for every getter it is about to read) to a progress file, unbuffered, and re-arms a
 //! per-call `alarm(2)` watchdog; the parent learns from exit status + progress file + captured
-//! stderr which call aborted / hung.  Failing histories are classified by re-running the *state
-//! predicate* of each known finding class on the real context right before the failing call
-//! (`--inspect`), together with the panic's source file and message kind (no line numbers), and a
-//! few per class are shrunk (calls dropped while the same class still fails).
+//! stderr which call aborted / hung.  Failing histories are classified by evaluating a *state
+//! predicate* on the real context right before the failing call (`--inspect`): the one known class
+//! `no-word-for-buffered-syllable` (findings F02 and F03) applies iff some syllable in the pre-edit
+//! buffer has no one-syllable word under a lookup strategy in force (the conversion engine's, or that
+//! of an open candidate list), whether the worker aborted or hung; everything else is `new`.  The panic's source
+//! file and message kind are reported for information only.  A few failures per class are shrunk
+//! (calls dropped while the same class still fails at the same site).
 //!
 //! Oracle only: there are no model records for the C layer (the editor-level behaviour behind every
 //! call is covered by the `editor` harness + Lean model); the records this binary prints are
@@ -23,6 +26,7 @@ use chewing_capi::modes::*;
 use chewing_capi::output::*;
 use chewing_capi::setup::*;
 use chewing_capi::userphrase::*;
+use chewing_capi::version::*;
 use std::collections::BTreeMap;
 use std::ffi::{c_char, c_int, c_uint, c_void, CStr, CString};
 use std::fs::File;
@@ -228,11 +232,19 @@ unsafe fn run_call(ctx: *mut ChewingContext, call: &str) {
                     if chewing_userphrase_has_next(ctx, &mut pl, &mut bl) != 1 {
                         break;
                     }
+                    // -1 = the size has_next reports; -2 = a buffer of that size announced as UINT_MAX bytes
+                    // (what a C caller passing -1 for the unsigned size gets)
                     let pn = if ps < 0 { pl as usize } else { ps as usize };
                     let bn = if bs < 0 { bl as usize } else { bs as usize };
                     let mut pbuf = vec![0u8; pn.max(1)];
                     let mut bbuf = vec![0u8; bn.max(1)];
-                    let r = chewing_userphrase_get(ctx, pbuf.as_mut_ptr().cast(), pn as c_uint, bbuf.as_mut_ptr().cast(), bn as c_uint);
+                    let pcap = if ps == -2 { c_uint::MAX } else { pn as c_uint };
+                    let bcap = if bs == -2 { c_uint::MAX } else { bn as c_uint };
+                    let r = if ps == -3 {
+                        chewing_userphrase_get(ctx, std::ptr::null_mut(), 0, bbuf.as_mut_ptr().cast(), bcap)
+                    } else {
+                        chewing_userphrase_get(ctx, pbuf.as_mut_ptr().cast(), pcap, bbuf.as_mut_ptr().cast(), bcap)
+                    };
                     guard += 1;
                     if r != 0 || guard > 200 {
                         break;
@@ -253,6 +265,38 @@ unsafe fn run_call(ctx: *mut ChewingContext, call: &str) {
             }
             "cleanbopo" => {
                 chewing_clean_bopomofo_buf(ctx);
+            }
+            "ug" => {
+                // get without enumerate / past the end
+                let mut pbuf = vec![0u8; 64];
+                let mut bbuf = vec![0u8; 64];
+                chewing_userphrase_get(ctx, pbuf.as_mut_ptr().cast(), 64, bbuf.as_mut_ptr().cast(), 64);
+                let (mut pl, mut bl): (c_uint, c_uint) = (0, 0);
+                chewing_userphrase_has_next(ctx, &mut pl, &mut bl);
+                chewing_userphrase_has_next(ctx, std::ptr::null_mut(), std::ptr::null_mut());
+            }
+            "p2b" => {
+                // pure helper: any 16-bit phone value, any buffer size
+                let len = int(2).clamp(0, 64) as usize;
+                let mut buf = vec![0u8; len.max(1)];
+                chewing_phone_to_bopomofo(int(1) as u16, buf.as_mut_ptr().cast(), len as u16);
+                chewing_phone_to_bopomofo(int(1) as u16, std::ptr::null_mut(), 0);
+            }
+            "kbs" => {
+                let v = CString::new(unhex_s(t[1]).into_iter().filter(|b| *b != 0).collect::<Vec<u8>>()).unwrap();
+                chewing_KBStr2Num(v.as_ptr());
+            }
+            "configure" => {
+                // legacy bulk configuration (ChewingConfigData is repr(C): 2 ints, 10 selection keys, 7 ints)
+                let mut data: [c_int; 19] = [0; 19];
+                for (i, d) in data.iter_mut().enumerate() {
+                    *d = int(1 + i);
+                }
+                chewing_Configure(ctx, data.as_mut_ptr().cast());
+                chewing_Configure(ctx, std::ptr::null_mut());
+            }
+            "nolog" => {
+                chewing_set_logger(ctx, None, std::ptr::null_mut());
             }
             "sbi" => {
                 // cand_string_by_index(_static) with an arbitrary index
@@ -375,6 +419,12 @@ unsafe fn getters(ctx: *mut ChewingContext, pr: &mut Progress) {
         chewing_get_easySymbolInput(ctx);
         chewing_get_phraseChoiceRearward(ctx);
         chewing_get_autoLearn(ctx);
+        chewing_get_hsuSelKeyType(ctx);
+        chewing_version();
+        chewing_version_major();
+        chewing_version_minor();
+        chewing_version_patch();
+        chewing_version_extra();
         pr.tag(b'w');
         let mut out: *mut c_char = std::ptr::null_mut();
         let name = cs("chewing.keyboard_type");
@@ -421,6 +471,27 @@ fn getter_name(tag: u8) -> &'static str {
     }
 }
 
+#[repr(C)]
+struct ITimerVal {
+    interval: libc::timeval,
+    value: libc::timeval,
+}
+
+extern "C" {
+    fn setitimer(which: c_int, new_value: *const ITimerVal, old_value: *mut ITimerVal) -> c_int;
+}
+
+/// arm (0 = disarm) the CPU-time timer of this process: ITIMER_VIRTUAL = 1, delivers SIGVTALRM
+unsafe fn cpu_watchdog(secs: i64) {
+    let t = ITimerVal {
+        interval: libc::timeval { tv_sec: 0, tv_usec: 0 },
+        value: libc::timeval { tv_sec: secs as libc::time_t, tv_usec: 0 },
+    };
+    unsafe {
+        setitimer(1, &t, std::ptr::null_mut());
+    }
+}
+
 /// `--worker <histories file> <progress file> <first history>`: runs histories `first..`
 fn worker(args: &[String]) {
     let text = std::fs::read_to_string(&args[0]).unwrap();
@@ -431,7 +502,7 @@ fn worker(args: &[String]) {
         let (dict, calls) = h.split_once(" | ").unwrap_or((h, ""));
         pr.hist(hi);
         unsafe {
-            libc::alarm(4);
+            libc::alarm(20);
             let ctx = new_ctx(dict);
             if ctx.is_null() {
                 continue;
@@ -440,7 +511,10 @@ fn worker(args: &[String]) {
                 if call.is_empty() {
                     continue;
                 }
-                libc::alarm(2);
+                // per-call watchdog: 1 s of CPU time of this process (SIGVTALRM; not disturbed by load on a
+                // shared machine) and 10 s of wall time (SIGALRM; catches a call that blocks)
+                cpu_watchdog(1);
+                libc::alarm(10);
                 pr.call(ci);
                 run_call(ctx, call);
                 if with_getters {
@@ -449,7 +523,8 @@ fn worker(args: &[String]) {
                     getters(ctx, &mut pr);
                 }
             }
-            libc::alarm(4);
+            cpu_watchdog(0);
+            libc::alarm(20);
             pr.phase(2);
             chewing_delete(ctx);
             libc::alarm(0);
@@ -472,31 +547,42 @@ fn inspect(args: &[String]) {
         libc::alarm(10);
         let ctx = new_ctx(dict);
         let calls: Vec<&str> = calls.split(" ; ").filter(|c| !c.is_empty()).collect();
-        for (ci, call) in calls.iter().enumerate().take(n) {
-            run_call(ctx, call);
-            if ci + 1 < n {
-                getters(ctx, &mut sink);
-            }
-        }
         let geti = |name: &str| -> c_int {
             let name = cs(name);
             chewing_config_get_int(ctx, name.as_ptr())
         };
-        let _ = writeln!(out, "shape {}", geti("chewing.character_form"));
-        let _ = writeln!(out, "lang {}", geti("chewing.language_mode"));
+        // A candidate list keeps the lookup strategy it was opened with (it is rebuilt by some keys while
+        // open), which no getter shows: remember every engine in force since the list was last closed.
+        let mut sel_engines: Vec<c_int> = vec![];
+        let mut was_selecting = false;
+        for (ci, call) in calls.iter().enumerate().take(n) {
+            let before = geti("chewing.conversion_engine");
+            run_call(ctx, call);
+            let selecting = chewing_cand_CheckDone(ctx) == 0;
+            if selecting {
+                if !was_selecting {
+                    sel_engines.clear();
+                }
+                for e in [before, geti("chewing.conversion_engine")] {
+                    if !sel_engines.contains(&e) {
+                        sel_engines.push(e);
+                    }
+                }
+            } else {
+                sel_engines.clear();
+            }
+            was_selecting = selecting;
+            if ci + 1 < n {
+                getters(ctx, &mut sink);
+            }
+        }
+        let _ = writeln!(out, "selengines {}", sel_engines.iter().map(|s| s.to_string()).collect::<Vec<_>>().join(" "));
         let _ = writeln!(out, "engine {}", geti("chewing.conversion_engine"));
-        let _ = writeln!(out, "perpage {}", geti("chewing.candidates_per_page"));
         let _ = writeln!(out, "selecting {}", (chewing_cand_CheckDone(ctx) == 0) as u8);
-        let _ = writeln!(out, "page {}", chewing_cand_CurrentPage(ctx));
         let len = chewing_get_phoneSeqLen(ctx).max(0) as usize;
         let p = chewing_get_phoneSeq(ctx);
         let syls: Vec<u16> = if p.is_null() { vec![] } else { std::slice::from_raw_parts(p, len).to_vec() };
         let _ = writeln!(out, "syls {}", syls.iter().map(|s| s.to_string()).collect::<Vec<_>>().join(" "));
-        let sk = chewing_get_selKey(ctx);
-        if !sk.is_null() {
-            let keys = std::slice::from_raw_parts(sk, 10);
-            let _ = writeln!(out, "selkeys {}", keys.iter().map(|s| s.to_string()).collect::<Vec<_>>().join(" "));
-        }
         chewing_userphrase_enumerate(ctx);
         let mut guard = 0;
         loop {
@@ -643,8 +729,8 @@ fn gen_user(rng: &mut Rng, calls: &mut Vec<String>) {
         4 => calls.push(format!("ul {} {}", if rng.chance(1, 3) { "-".to_string() } else { hx(p) }, hx(b))),
         5 => {
             // odd caller buffer sizes (F06)
-            let ps = *rng.pick(&[-1i64, -1, 0, 1, 2, 3, 4, 7, 64]);
-            let bs = *rng.pick(&[-1i64, -1, 0, 1, 2, 3, 4, 7, 64]);
+            let ps = *rng.pick(&[-1i64, -1, -2, -3, 0, 1, 2, 3, 4, 7, 64]);
+            let bs = *rng.pick(&[-1i64, -1, -2, 0, 1, 2, 3, 4, 7, 64]);
             calls.push(format!("ue {} {}", ps, bs));
         }
         6 => {
@@ -691,7 +777,7 @@ fn gen_history(rng: &mut Rng, n_calls: usize) -> String {
                 0..=2 => calls.push("k down".into()),
                 3 => calls.push("co".into()),
                 4 => calls.push("cc".into()),
-                5 | 6 => calls.push(format!("cx {}", rng.pick(&[0i64, 0, 1, 2, 3, 9, 10, 50]))),
+                5 | 6 => calls.push(format!("cx {}", rng.pick(&[0i64, 0, 1, 2, 3, 5, 9, 10, 50, -1, -1, 1 << 20, i32::MAX as i64, i32::MIN as i64]))),
                 7 => calls.push(format!("k {}", rng.pick(&["pagedown", "pageup", "space", "right", "left"]))),
                 8 => calls.push("cf".into()),
                 9 => calls.push("cl".into()),
@@ -702,7 +788,21 @@ fn gen_history(rng: &mut Rng, n_calls: usize) -> String {
             },
             6 => gen_cfg(rng, &mut calls),
             7 => gen_user(rng, &mut calls),
-            8 => calls.push(rng.pick(&["reset", "ack", "commit", "cleanpre", "cleanbopo", "ack"]).to_string()),
+            8 => match rng.below(12) {
+                0 => {
+                    let any = rng.below(65536) as i64;
+                    let phone = *rng.pick(&[any, any, 0, 0x2800, 0x7fff, 0xffff, 0x208]);
+                    calls.push(format!("p2b {} {}", phone, rng.below(12)));
+                }
+                1 => calls.push(format!("kbs {}", hx(*rng.pick(&["KB_HSU", "KB_DEFAULT", "kb_hsu", "", "KB_\u{fffd}", "KB_MPS2_PINYIN"])))),
+                2 => {
+                    let v: Vec<String> = (0..19).map(|_| rng.pick(&[-1i64, 0, 1, 1, 5, 10, 11, 20, 39, 40, 49, 97, 300]).to_string()).collect();
+                    calls.push(format!("configure {}", v.join(" ")));
+                }
+                3 => calls.push("nolog".into()),
+                4 => calls.push("ug".into()),
+                _ => calls.push(rng.pick(&["reset", "ack", "commit", "cleanpre", "cleanbopo", "ack"]).to_string()),
+            },
             9 => {
                 let (a, b) = (rng.below(256) as i64, rng.below(128) as i64);
                 calls.push(format!("d {}", *rng.pick(&[a, b, 0, 255, 256, -1, 96, 32, 65, 44])));
@@ -829,7 +929,7 @@ fn run_worker(exe: &Path, dir: &Path, tag: &str, hist_file: &Path, first: usize,
     let how = match status {
         None => "hang".to_string(),
         Some(st) => match st.signal() {
-            Some(14) => "hang".to_string(),
+            Some(14) | Some(26) => "hang".to_string(),
             Some(6) | Some(4) | Some(5) => "abort".to_string(),
             Some(11) | Some(7) => "segv".to_string(),
             Some(n) => format!("signal {}", n),
@@ -854,12 +954,11 @@ fn run_single(exe: &Path, dir: &Path, tag: &str, history: &str) -> Option<Failur
 }
 
 struct Facts {
-    shape: i64,
     engine: i64,
     selecting: bool,
-    page: i64,
+    /// engines in force at some moment since the open candidate list was opened
+    sel_engines: Vec<i64>,
     syls: Vec<u16>,
-    selkeys: Vec<i64>,
     user: Vec<(String, String)>,
     ok: bool,
 }
@@ -882,16 +981,14 @@ fn inspect_state(exe: &Path, dir: &Path, tag: &str, f: &Failure) -> Facts {
         .status();
     let mut text = String::new();
     let _ = File::open(&of).and_then(|mut f| f.read_to_string(&mut text));
-    let mut facts = Facts { shape: 0, engine: 1, selecting: false, page: 0, syls: vec![], selkeys: vec![], user: vec![], ok: false };
+    let mut facts = Facts { engine: 1, selecting: false, sel_engines: vec![], syls: vec![], user: vec![], ok: false };
     for line in text.lines() {
         let t: Vec<&str> = line.split(' ').collect();
         match t[0] {
-            "shape" => facts.shape = t[1].parse().unwrap_or(0),
             "engine" => facts.engine = t[1].parse().unwrap_or(1),
             "selecting" => facts.selecting = t[1] == "1",
-            "page" => facts.page = t[1].parse().unwrap_or(0),
+            "selengines" => facts.sel_engines = t[1..].iter().filter_map(|x| x.parse().ok()).collect(),
             "syls" => facts.syls = t[1..].iter().filter_map(|x| x.parse().ok()).collect(),
-            "selkeys" => facts.selkeys = t[1..].iter().filter_map(|x| x.parse().ok()).collect(),
             "user" => facts.user.push((String::from_utf8_lossy(&unhex(t[1])).to_string(), String::from_utf8_lossy(&unhex(t[2])).to_string())),
             "END" => facts.ok = st.as_ref().map(|s| s.success()).unwrap_or(false),
             _ => {}
@@ -921,11 +1018,17 @@ fn no_word(facts: &Facts, dict: &str) -> Option<u16> {
         let _ = DictionaryMut::add_phrase(&mut user, &syls, Phrase::new(p.as_str(), 1));
     }
     let layered = Layered::new(sys, Box::new(user));
-    let active = if facts.engine == 2 { LookupStrategy::FuzzyPartialPrefix } else { LookupStrategy::Standard };
-    let mut strategies = vec![active];
+    // the C API sets options.lookup_strategy together with the engine: fuzzy engine = FuzzyPartialPrefix,
+    // chewing / simple engine = Standard
+    let strat = |e: i64| if e == 2 { LookupStrategy::FuzzyPartialPrefix } else { LookupStrategy::Standard };
+    let mut strategies = vec![strat(facts.engine)];
     if facts.selecting {
         // an open phrase selector keeps the strategy it was created with
-        strategies = vec![LookupStrategy::Standard, LookupStrategy::FuzzyPartialPrefix];
+        for e in &facts.sel_engines {
+            if !strategies.contains(&strat(*e)) {
+                strategies.push(strat(*e));
+            }
+        }
     }
     for s in &facts.syls {
         if let Ok(syl) = Syllable::try_from(*s) {
@@ -939,45 +1042,22 @@ fn no_word(facts: &Facts, dict: &str) -> Option<u16> {
     None
 }
 
-fn is_key_call(call: &str) -> bool {
-    call.starts_with("k ") || call.starts_with("d ") || call.starts_with("n ") || call.starts_with("c ")
-}
+pub const KNOWN_CLASS: &str = "no-word-for-buffered-syllable";
 
-/// finding class of a failure: a *state predicate* evaluated on the real context right before the
-/// failing call + the panic's source file and message kind.  Anything else is `new`.
+/// Finding class of a failure (abort, hang or any other death).  STATE-BASED: the known class applies
+/// iff, in the state of the real context right before the failing call (right after it when a getter
+/// failed), some buffered syllable has no word under a lookup strategy in force.  Everything else is `new`.
+/// The second component (panic site: file + message kind) is information for the reader.
 fn classify(exe: &Path, dir: &Path, tag: &str, f: &Failure) -> (String, String) {
-    if f.how == "hang" {
-        return ("new".into(), "hang (per-call watchdog)".into());
-    }
-    let (dict, calls) = f.history.split_once(" | ").unwrap_or((&f.history, ""));
-    let calls: Vec<&str> = calls.split(" ; ").collect();
-    let call = calls.get(f.call).cloned().unwrap_or("");
+    let (dict, _) = f.history.split_once(" | ").unwrap_or((&f.history, ""));
     let facts = inspect_state(exe, dir, tag, f);
     let kind = msg_kind(&f.msg);
-    let site = format!("{} `{}`", f.file, kind);
+    let site = if f.how == "hang" { "hang (per-call watchdog)".to_string() } else { format!("{} `{}`", f.file, kind) };
     if !facts.ok {
         return ("new".into(), format!("state inspection failed; {}", site));
     }
-    // F01: full-width form + a key event whose character has no full-width table entry -> unwrap on None in Entering::next
-    if facts.shape == 1 && f.getter.is_none() && is_key_call(call) && f.file == "src/editor/mod.rs" && kind.contains("Option::unwrap()") {
-        return ("F01-fullwidth-unprintable".into(), site);
-    }
-    // F04: choose_by_index with an index that overflows page_no * per_page + n
-    if f.getter.is_none() && call.starts_with("cx ") && f.file == "src/editor/mod.rs" && kind.contains("overflow") {
-        let idx: i64 = call[3..].parse().unwrap_or(0);
-        if idx < 0 && facts.selecting && facts.page >= 1 {
-            return ("F04-select-overflow".into(), site);
-        }
-    }
-    // F05: a selection key that is not a non-NUL byte makes the selection_keys getter abort
-    if f.getter == Some(b'x') && f.file == "capi/src/io.rs" && kind.contains("should have valid string") && facts.selkeys.iter().any(|k| (*k as u8) == 0) {
-        return ("F05-selkeys-getter".into(), site);
-    }
-    // F02/F03: some buffered syllable has no word under the active strategy
-    if matches!(f.file.as_str(), "src/conversion/chewing.rs" | "src/editor/selection/phrase.rs" | "src/editor/mod.rs") {
-        if let Some(s) = no_word(&facts, dict) {
-            return ("F02F03-no-word".into(), format!("syllable {:#x} has no word; {}", s, site));
-        }
+    if let Some(s) = no_word(&facts, dict) {
+        return (KNOWN_CLASS.into(), format!("engine {} syllable {:#x} has no word; {}", facts.engine, s, site));
     }
     ("new".into(), site)
 }
@@ -1031,6 +1111,14 @@ fn shrink(exe: &Path, dir: &Path, tag: &str, f: &Failure, class: &(String, Strin
     best
 }
 
+/// the history cut after the failing call
+fn truncated(f: &Failure) -> Failure {
+    let (dict, calls) = f.history.split_once(" | ").unwrap_or((&f.history, ""));
+    let mut calls: Vec<&str> = calls.split(" ; ").collect();
+    calls.truncate(f.call + 1);
+    Failure { history: format!("{} | {}", dict, calls.join(" ; ")), ..f.clone() }
+}
+
 fn describe(f: &Failure, class: &(String, String)) -> String {
     let calls: Vec<&str> = f.history.split_once(" | ").map(|x| x.1).unwrap_or("").split(" ; ").collect();
     let at = match f.getter {
@@ -1038,6 +1126,30 @@ fn describe(f: &Failure, class: &(String, String)) -> String {
         None => format!("call #{} `{}`", f.call, calls.get(f.call).unwrap_or(&"")),
     };
     format!("{} in {} [{}] history: {}", f.how, at, class.1, f.history)
+}
+
+/// directed histories: (label, must still fail in the known class, history).  The witnesses of the two
+/// recorded findings must reproduce on every run; the witnesses of repaired defects stay in the corpus
+/// so that a regression is reported like any other failure (class `new`).
+fn directed() -> Vec<(&'static str, bool, String)> {
+    let (wo, bo) = (hx("喔"), hx("ㄛ"));
+    let (ws, bs) = (hx("測試"), hx("ㄘㄜˋ ㄕˋ"));
+    vec![
+        ("F02", true, "testdata | ci chewing.conversion_engine 2 ; d 104 ; d 103 ; ci chewing.conversion_engine 1".into()),
+        // same state, simple engine: the pre-edit is readable (F30) but opening the candidate list never returns
+        ("F03-simple-engine-hang", true, format!("builtin | ci chewing.conversion_engine 0 ; ua {} {} ; d 112 ; d 55 ; ur {} {} ; k down", hx("嗯"), hx("ㄣ˙"), hx("嗯"), hx("ㄣ˙"))),
+        ("F30-fuzzy-to-simple", false, "testdata | ci chewing.conversion_engine 2 ; d 104 ; d 103 ; ci chewing.conversion_engine 0".into()),
+        ("F03", true, format!("testdata | ua {} {} ; d 105 ; k space ; ur {} {}", wo, bo, wo, bo)),
+        ("F03-builtin", true, format!("builtin | ua {} {} ; d 44 ; d 52 ; ur {} {}", hx("欸"), hx("ㄝˋ"), hx("欸"), hx("ㄝˋ"))),
+        ("F01-fixed", false, "builtin | set shape 1 ; d 1".into()),
+        ("F01-fixed", false, "builtin | set chieng 0 ; set shape 1 ; d 1 ; d 127 ; d 255 ; n 1 ; k tab".into()),
+        ("F04-fixed", false, "testdata | ci chewing.candidates_per_page 1 ; d 104 ; d 107 ; d 52 ; k down ; k right ; cx -1".into()),
+        ("F05-fixed", false, format!("builtin | cs chewing.selection_keys {}", hx("ééééé"))),
+        ("F05-fixed", false, "builtin | selkey 0 0 0 0 0 0 0 0 0 0 ; selkey 200 200 200 200 200 200 200 200 200 200".into()),
+        ("F06-fixed", false, format!("testdata | ua {} {} ; ue 2 2", ws, bs)),
+        ("F06-fixed", false, format!("testdata | ua {} {} ; ue -1 1 ; ue 0 0 ; ue 1 -1 ; ue -2 -2 ; ue -3 3", ws, bs)),
+        ("F40-fixed", false, "testdata | d 104 ; d 107 ; d 52 ; d 65 ; ci chewing.auto_commit_threshold 0 ; k down ; cx 9 ; d 52".into()),
+    ]
 }
 
 fn main() {
@@ -1051,8 +1163,9 @@ fn main() {
         return;
     }
     let thorough = tier_is_thorough();
-    let mut n_hist: usize = if thorough { 30000 } else { 1500 };
+    let mut n_hist: usize = if thorough { 320_000 } else { 16_000 };
     let mut n_calls: usize = 60;
+    let mut threads: usize = 6;
     let mut single: Option<String> = None;
     let mut i = 1;
     while i < args.len() {
@@ -1065,6 +1178,10 @@ fn main() {
                 n_calls = args[i + 1].parse().unwrap();
                 i += 1;
             }
+            "--threads" => {
+                threads = args[i + 1].parse().unwrap();
+                i += 1;
+            }
             "--history" => {
                 single = Some(args[i + 1].clone());
                 i += 1;
@@ -1073,11 +1190,13 @@ fn main() {
         }
         i += 1;
     }
+    let threads = threads.clamp(1, std::thread::available_parallelism().map(|n| n.get()).unwrap_or(4));
     let exe = std::env::current_exe().unwrap();
     let tmp = tempfile::tempdir().unwrap();
     let dir: PathBuf = tmp.path().to_path_buf();
     let mut out = Out::new();
     let seed = seed_from_env();
+    let t_start = Instant::now();
 
     if let Some(h) = single {
         // replay of one history (text as printed in an oracle line)
@@ -1092,35 +1211,26 @@ fn main() {
         return;
     }
 
-    // directed histories first: the pre-survey witnesses (each must still classify as listed) + probes of suspected classes
-    let mut histories: Vec<String> = vec![
-        "builtin | set shape 1 ; d 1".into(),
-        "builtin | ci chewing.conversion_engine 2 ; d 104 ; d 103 ; ci chewing.conversion_engine 1".into(),
-        format!("testdata | ua {} {} ; d 105 ; k space ; ur {} {}", hx("喔"), hx("ㄛ"), hx("喔"), hx("ㄛ")),
-        "testdata | ci chewing.candidates_per_page 1 ; d 104 ; d 107 ; d 52 ; k down ; k right ; cx -1".into(),
-        format!("builtin | cs chewing.selection_keys {}", hx("ééééé")),
-        format!("testdata | ua {} {} ; ue 2 2", hx("測試"), hx("ㄘㄜˋ ㄕˋ")),
-        format!("testdata | ua {} {} ; ue -1 1", hx("測試"), hx("ㄘㄜˋ ㄕˋ")),
-    ];
-    let n_directed = histories.len();
+    let directed = directed();
+    let n_directed = directed.len();
+    let mut histories: Vec<String> = directed.iter().map(|d| d.2.clone()).collect();
     let mut rng = Rng::new(seed);
     for _ in 0..n_hist {
         let s = rng.next();
         histories.push(gen_history(&mut Rng::new(s), n_calls));
     }
-    let hist_file = dir.join("histories.txt");
-    std::fs::write(&hist_file, histories.join("\n") + "\n").unwrap();
 
-    // parallel batches
+    // parallel batches, one worker process per batch (restarted after the failing history)
     let batch = 25usize;
     let n_batches = histories.len().div_ceil(batch);
     let next = Arc::new(AtomicUsize::new(0));
-    let failures: Arc<Mutex<Vec<(usize, Failure)>>> = Arc::new(Mutex::new(vec![]));
-    let threads = std::thread::available_parallelism().map(|n| n.get()).unwrap_or(4).min(16);
+    let failures: Arc<Mutex<Vec<(usize, Failure, (String, String))>>> = Arc::new(Mutex::new(vec![]));
+    let hangs_not_reproduced = Arc::new(AtomicUsize::new(0));
     let histories = Arc::new(histories);
     let mut handles = vec![];
     for tid in 0..threads {
-        let (next, failures, histories, exe, dir, hist_file) = (next.clone(), failures.clone(), histories.clone(), exe.clone(), dir.clone(), hist_file.clone());
+        let (next, failures, histories, exe, dir) = (next.clone(), failures.clone(), histories.clone(), exe.clone(), dir.clone());
+        let hangs_not_reproduced = hangs_not_reproduced.clone();
         handles.push(std::thread::spawn(move || loop {
             let b = next.fetch_add(1, Ordering::SeqCst);
             if b >= n_batches {
@@ -1128,9 +1238,7 @@ fn main() {
             }
             let lo = b * batch;
             let hi = ((b + 1) * batch).min(histories.len());
-            // a batch file of its own so that the worker stops at `hi`
             let bf = dir.join(format!("batch{}.txt", b));
-            let _ = hist_file;
             std::fs::write(&bf, histories[lo..hi].join("\n") + "\n").unwrap();
             let mut first = 0usize;
             while first < hi - lo {
@@ -1139,8 +1247,21 @@ fn main() {
                     None => break,
                     Some((h, c, g)) => {
                         let (file, msg) = parse_panic(&r.stderr);
-                        failures.lock().unwrap().push((lo + h, Failure { history: histories[lo + h].clone(), call: c, getter: g, how: r.how, file, msg }));
+                        let mut f = Failure { history: histories[lo + h].clone(), call: c, getter: g, how: r.how, file, msg };
                         first = h + 1;
+                        if f.how == "hang" {
+                            // a watchdog verdict is confirmed by running the history once more on its own
+                            match run_single(&exe, &dir, &format!("confirm{}", tid), &f.history) {
+                                Some(f2) => f = f2,
+                                None => {
+                                    hangs_not_reproduced.fetch_add(1, Ordering::SeqCst);
+                                    continue;
+                                }
+                            }
+                        }
+                        // state predicate evaluated in an inspection worker
+                        let c = classify(&exe, &dir, &format!("cls{}", tid), &f);
+                        failures.lock().unwrap().push((lo + h, f, c));
                     }
                 }
             }
@@ -1150,69 +1271,177 @@ fn main() {
     for h in handles {
         h.join().unwrap();
     }
+    let t_run = t_start.elapsed();
     let mut failures = failures.lock().unwrap().clone();
     failures.sort_by_key(|f| f.0);
+    let hangs_not_reproduced = hangs_not_reproduced.load(Ordering::SeqCst);
 
-    // classification (state predicate in an inspection worker), a few shrunk per class
+    // a few failures per class are shrunk
     let mut per_class: BTreeMap<String, u64> = BTreeMap::new();
     let mut per_site: BTreeMap<String, u64> = BTreeMap::new();
     let mut printed: BTreeMap<String, u64> = BTreeMap::new();
-    let mut directed_seen: Vec<String> = vec![];
+    let mut directed_class: BTreeMap<usize, String> = BTreeMap::new();
     let t_class = Instant::now();
-    for (hi, f) in &failures {
-        let c = classify(&exe, &dir, "cls", f);
+    let shrink_box = Duration::from_secs(if thorough { 300 } else { 20 });
+    for (hi, f, c) in &failures {
         *per_class.entry(c.0.clone()).or_insert(0) += 1;
         *per_site.entry(format!("{}|{}", c.0, c.1.split(';').last().unwrap_or("").trim())).or_insert(0) += 1;
         if *hi < n_directed {
-            directed_seen.push(format!("{}:{}", hi, c.0));
+            directed_class.insert(*hi, c.0.clone());
+            // directed histories are minimal already: print as they are
+            out.oracle_fail("C01", &c.0, &format!("[directed {}] {}", directed[*hi].0, describe(f, c)));
+            continue;
         }
         let k = printed.entry(c.0.clone()).or_insert(0);
-        let limit = if c.0 == "new" { 25 } else { 4 };
+        let limit = if c.0 == "new" { 25 } else { 3 };
         if *k < limit {
             *k += 1;
-            let budget = if c.0 == "new" { 20 } else { 6 };
-            let small = if f.how == "hang" || t_class.elapsed() > Duration::from_secs(if thorough { 600 } else { 45 }) {
-                f.clone()
+            let budget = if c.0 == "new" { 15 } else { 4 };
+            let small = if f.how == "hang" || t_class.elapsed() > shrink_box {
+                truncated(f)
             } else {
-                shrink(&exe, &dir, "shr", f, &c, Duration::from_secs(budget))
+                shrink(&exe, &dir, "shr", f, c, Duration::from_secs(budget))
             };
-            out.oracle_fail("C01", &c.0, &describe(&small, &c));
-        } else if c.0 == "new" {
-            out.oracle_fail("C01", &c.0, &describe(f, &c));
+            out.oracle_fail("C01", &c.0, &describe(&small, c));
+        } else if c.0 == "new" && *k < 200 {
+            *k += 1;
+            out.oracle_fail("C01", &c.0, &describe(&truncated(f), c));
         }
     }
+
+    // ---------------------------------------------------------------- statistics
+    out.stat("seed", seed);
+    out.stat("threads", threads);
     out.stat("histories", histories.len());
     out.stat("calls_per_history", n_calls);
     out.stat("directed_histories", n_directed);
     out.stat("failing_histories", failures.len());
-    for (c, n) in &per_class {
-        out.stat(&format!("class.{}", c), n);
-    }
+    out.stat("failures_known_class", per_class.get(KNOWN_CLASS).cloned().unwrap_or(0));
+    out.stat("failures_new", per_class.get("new").cloned().unwrap_or(0));
+    let hangs = failures.iter().filter(|f| f.1.how == "hang").count();
+    out.stat("hangs", hangs);
+    out.stat("hangs_not_reproduced_alone", hangs_not_reproduced);
+    out.stat("aborts", failures.iter().filter(|f| f.1.how == "abort").count());
+    out.stat("other_deaths", failures.iter().filter(|f| f.1.how != "abort" && f.1.how != "hang").count());
+    out.stat("campaign_ms", t_run.as_millis());
+    out.stat("classification_ms", t_class.elapsed().as_millis());
     for (s, n) in &per_site {
         out.sample(&format!("site {} x{}", s, n));
     }
-    out.sample(&format!("directed witnesses: {}", directed_seen.join(" ")));
-    let hangs = failures.iter().filter(|f| f.1.how == "hang").count();
-    out.stat("hangs", hangs);
-    // realised distribution
+    // realised distribution, from the histories as executed (a failing history stops at its failing call)
+    let stop_at: BTreeMap<usize, usize> = failures.iter().map(|(hi, f, _)| (*hi, f.call)).collect();
     let mut kinds: BTreeMap<String, u64> = BTreeMap::new();
-    let mut dflt = [false; 256];
-    for h in histories.iter() {
-        for call in h.split_once(" | ").map(|x| x.1).unwrap_or("").split(" ; ") {
+    let mut named: BTreeMap<String, u64> = BTreeMap::new();
+    let mut engines = [0u64; 3];
+    let mut engine_mid = 0u64;
+    let mut kbnum: BTreeMap<i64, u64> = BTreeMap::new();
+    let mut kbname: BTreeMap<String, u64> = BTreeMap::new();
+    let mut perpage: BTreeMap<i64, u64> = BTreeMap::new();
+    let mut thresh: BTreeMap<i64, u64> = BTreeMap::new();
+    let mut cx_neg = 0u64;
+    let mut cx_huge = 0u64;
+    let mut ue_short = 0u64;
+    let mut dflt = [0u64; 256];
+    let mut n_calls_run = 0u64;
+    let mut dicts = [0u64; 2];
+    for (hi, h) in histories.iter().enumerate() {
+        let (dict, calls) = h.split_once(" | ").unwrap_or((h, ""));
+        dicts[(dict == "builtin") as usize] += 1;
+        let stop = stop_at.get(&hi).cloned().unwrap_or(usize::MAX);
+        let mut since_key = false; // a key was typed since the last reset/commit: "mid-composition" (approximation from the text)
+        for (ci, call) in calls.split(" ; ").enumerate() {
+            if ci > stop {
+                break;
+            }
+            n_calls_run += 1;
             let t: Vec<&str> = call.split(' ').collect();
+            let num = |i: usize| t.get(i).and_then(|x| x.parse::<i64>().ok());
             *kinds.entry(t[0].to_string()).or_insert(0) += 1;
-            if t[0] == "d" {
-                if let Ok(v) = t[1].parse::<i64>() {
-                    if (0..256).contains(&v) {
-                        dflt[v as usize] = true;
+            match t[0] {
+                "d" => {
+                    since_key = true;
+                    if let Some(v) = num(1) {
+                        if (0..256).contains(&v) {
+                            dflt[v as usize] += 1;
+                        }
                     }
                 }
+                "k" => {
+                    *named.entry(t[1].to_string()).or_insert(0) += 1;
+                    if t[1] == "enter" {
+                        since_key = false;
+                    }
+                }
+                "reset" | "commit" | "cleanpre" => since_key = false,
+                "ci" => match (t[1], num(2)) {
+                    ("chewing.conversion_engine", Some(v)) if (0..3).contains(&v) => {
+                        engines[v as usize] += 1;
+                        if since_key {
+                            engine_mid += 1;
+                        }
+                    }
+                    ("chewing.candidates_per_page", Some(v)) => *perpage.entry(v).or_insert(0) += 1,
+                    ("chewing.auto_commit_threshold", Some(v)) => *thresh.entry(v).or_insert(0) += 1,
+                    _ => {}
+                },
+                "set" => match (t[1], num(2)) {
+                    ("perpage", Some(v)) => *perpage.entry(v).or_insert(0) += 1,
+                    ("maxlen", Some(v)) => *thresh.entry(v).or_insert(0) += 1,
+                    _ => {}
+                },
+                "kb" => *kbnum.entry(num(1).unwrap_or(0)).or_insert(0) += 1,
+                "cs" if t[1] == "chewing.keyboard_type" => {
+                    *kbname.entry(String::from_utf8_lossy(&unhex(t[2])).to_string()).or_insert(0) += 1
+                }
+                "cx" => match num(1) {
+                    Some(v) if v < 0 => cx_neg += 1,
+                    Some(v) if v >= 1000 => cx_huge += 1,
+                    _ => {}
+                },
+                "ue" => {
+                    if num(1).map(|v| (0..8).contains(&v)).unwrap_or(false) || num(2).map(|v| (0..8).contains(&v)).unwrap_or(false) {
+                        ue_short += 1;
+                    }
+                }
+                _ => {}
             }
         }
     }
+    out.stat("calls_executed", n_calls_run);
+    out.stat("histories_testdata_dictionary", dicts[0]);
+    out.stat("histories_builtin_dictionary", dicts[1]);
     for (k, n) in &kinds {
         out.stat(&format!("calls.{}", k), n);
     }
-    out.stat("default_key_codes_covered_of_256", dflt.iter().filter(|b| **b).count());
+    out.stat("named_key_handlers_covered_of_19", named.len());
+    out.stat("default_key_codes_covered_of_256", dflt.iter().filter(|b| **b > 0).count());
+    out.stat("default_key_code_min_count", dflt.iter().min().unwrap());
+    for (e, n) in engines.iter().enumerate() {
+        out.stat(&format!("engine_set.{}", e), n);
+    }
+    out.stat("engine_set_mid_composition", engine_mid);
+    out.stat("kbtype_numbers_valid_covered_of_17", kbnum.keys().filter(|k| (0..17).contains(*k)).count());
+    out.stat("kbtype_number_calls", kbnum.values().sum::<u64>());
+    out.stat("kbtype_names_used", kbname.len());
+    out.stat("page_sizes_1_to_10_covered", perpage.keys().filter(|k| (1..=10).contains(*k)).count());
+    out.stat("thresholds_0_to_39_covered", thresh.keys().filter(|k| (0..40).contains(*k)).count());
+    out.stat("cand_choose_negative_index", cx_neg);
+    out.stat("cand_choose_huge_index", cx_huge);
+    out.stat("userphrase_get_short_buffer_enumerations", ue_short);
+
+    // the witnesses of the recorded findings must still fail in their class (KNOWN_FINDINGS.txt would be stale otherwise)
+    let mut stale: Vec<String> = vec![];
+    for (i, (label, must_fail, h)) in directed.iter().enumerate() {
+        let got = directed_class.get(&i).cloned().unwrap_or_else(|| "clean".into());
+        out.sample(&format!("directed {} -> {}", label, got));
+        if *must_fail && got != KNOWN_CLASS {
+            stale.push(format!("{} ({}) -> {}", label, h, got));
+        }
+    }
+    out.stat("known_witnesses_reproduced", directed.iter().filter(|d| d.1).count() - stale.len());
     out.flush();
+    if !stale.is_empty() {
+        eprintln!("witness of a recorded finding no longer fails in class {}: {}", KNOWN_CLASS, stale.join("; "));
+        std::process::exit(3);
+    }
 }
